@@ -223,6 +223,13 @@ impl WindowSize {
                     Some(TcpMatchQuality::Low.as_score())
                 }
             }
+            (WindowSize::Value(a), WindowSize::Mod(b)) => {
+                if a.checked_rem(*b) == Some(0) {
+                    Some(TcpMatchQuality::High.as_score())
+                } else {
+                    Some(TcpMatchQuality::Low.as_score())
+                }
+            }
             (WindowSize::Mod(a), WindowSize::Mod(b)) => {
                 if a == b {
                     Some(TcpMatchQuality::High.as_score())
